@@ -89,7 +89,7 @@ def run(tier: str, seed: int) -> int:
         depth[info["compared_states"] - 1] += 1
         stat["states_compared"] += info["compared_states"]
         worst = max(worst, info["max_relerr"])
-        for k in ("returned", "borderline", "map", "filter_update"):
+        for k in ("returned", "borderline", "map", "filter_update", "range_checked"):
             stat[k] += int(info[k])
         ret = sp["ret"]
         if ret is None:
